@@ -175,6 +175,16 @@ func genC08Store(g *gen, tier string) *Scenario {
 		sc.Sim.PoolReuse = pick(g, 50, 100)
 		sc.Family = "store-stripe+pool"
 	}
+	saves := g.pct(25)
+	if saves {
+		sc.Family += "+save"
+	}
+	if sc.Cache.Kind == "loading" && g.pct(50) {
+		// loaded values expire inside the run: a read of an expired, not yet reclaimed entry is a miss
+		sc.Stubs.LoaderTTLPct = pick(g, 50, 100)
+		sc.Stubs.LoaderTTL = int64(g.rng(100, 900)) * ms
+		sc.Family += "+ttl"
+	}
 	nc := g.rng(2, 4)
 	if tier == "thorough" {
 		nc = g.rng(2, 6)
@@ -196,11 +206,23 @@ func genC08Store(g *gen, tier string) *Scenario {
 				ops = append(ops, Op{Kind: "sleep", Dur: int64(g.rng(1, 300)) * ms})
 			}
 		}
+		if c == nc-1 && saves {
+			// SaveCache while hits are pending in half-filled stripes: a snapshot must not consume,
+			// replay or duplicate them
+			for n := g.rng(1, 4); n > 0; n-- {
+				at := g.n(len(ops) + 1)
+				ops = append(ops[:at], append([]Op{{Kind: "save", Key: 1}}, ops[at:]...)...)
+			}
+		}
 		sc.Clients = append(sc.Clients, ops)
 	}
 	// after the burst: make key 0 resident again, let everything drain, then
 	// 64 sequential hits on it
 	ep := []Op{{Kind: "waitidle"}, {Kind: "wait"}, {Kind: "set", Key: 0, Cost: 1}, {Kind: "wait"}, {Kind: "waitidle"}, {Kind: "snap", Label: "before"}}
+	if sc.Stubs.LoaderTTLPct > 0 {
+		// a TTL-less Set keeps the deadline of a loaded entry it updates: start from a fresh entry
+		ep = append([]Op{{Kind: "waitidle"}, {Kind: "del", Key: 0}}, ep...)
+	}
 	for i := 0; i < 4*bufCap*sc.Cache.Stripes; i++ {
 		ep = append(ep, Op{Kind: "get", Key: 0})
 	}
@@ -315,7 +337,18 @@ func c08Conservation(rd *RunData, after *Snap) []Violation {
 		case "get":
 			if r.Ok || r.Open {
 				events[r.Op.Key]++
-				hits[r.Op.Key]++
+				// a loading Get that ran the loader itself found nothing to hit
+				ran := false
+				if r.Client >= -1 {
+					for _, l := range rd.Loader {
+						if l.Key == r.Op.Key && l.Task == rd.ClientTask[r.Client+1] && l.Start > r.Inv && (r.Open || l.Start < r.Ret) {
+							ran = true
+						}
+					}
+				}
+				if !ran {
+					hits[r.Op.Key]++
+				}
 			}
 		}
 	}
